@@ -658,3 +658,6 @@ static void M__ZNSt7__cxx1112basic_stringIcSt11char_traitsIcESaIcEED1Ev(void *S)
 #ifdef USES___cxa_atexit
 static s32 M___cxa_atexit(void *f, void *a, void *d) { (void)f; (void)a; (void)d; return 0; }   /* destructors of statics are not run */
 #endif
+#ifdef USES_strcmp
+static s32 M_strcmp(void *a, void *b) { const u8 *x = (const u8 *)a, *y = (const u8 *)b; u64 i = 0; while (x[i] && x[i] == y[i]) i++; return (s32)x[i] - (s32)y[i]; }
+#endif
